@@ -98,6 +98,7 @@ impl C04Deep {
             favored: None,
             locked: None,
             lock_gone: false,
+            hint_unlisted: false,
             hint: hint.clone(),
             unlisted: vec![],
         };
